@@ -159,6 +159,17 @@ let quant w bits =
   let v = c32 (z_of_int bits) in
   string_of_int (int_of_z (match w with "8" -> quant8 v | "9" -> quant9 v | _ -> quant16 v))
 
+(* ---------- images ---------- *)
+let kind_of = function "RGBA64" -> KRGBA64 | "RGBA" -> KRGBA | "NRGBA" -> KNRGBA | _ -> KNRGBA64
+let zi s = z_of_int (int_of_string s)
+let img_transform kind pix stride x0 y0 x1 y1 pcs =
+  let dst = { ikind = kind_of kind; ipix = bytes_of_hex pix; istride = zi stride; ix0 = zi x0; iy0 = zi y0; ix1 = zi x1; iy1 = zi y1 } in
+  let l = if pcs = "-" then [] else
+    List.map (fun e -> match String.split_on_char ',' e with
+      | [x; y; r; g; b; a] -> ((zi x, zi y), (((zi r, zi g), zi b), zi a))
+      | _ -> failwith "pixel") (String.split_on_char ';' pcs) in
+  hex_of_bytes (transform dst l)
+
 (* ---------- dispatch ---------- *)
 let handle (line : string) : string =
   match String.split_on_char ' ' line with
@@ -167,6 +178,7 @@ let handle (line : string) : string =
   | ["icc_tags"; d] -> icc_tags (bytes_of_hex d)
   | ["icc_desc"; d] -> icc_desc (bytes_of_hex d)
   | ["quant"; w; bits] -> quant w (int_of_string bits)
+  | ["img_transform"; kind; pix; stride; x0; y0; x1; y1; pcs] -> img_transform kind pix stride x0 y0 x1 y1 pcs
   | ["alpha16"; a] -> string_of_int (int_of_z (alpha16_bits (z_of_int (int_of_string a))))
   | ["alpha8"; a] -> string_of_int (int_of_z (alpha8_bits (z_of_int (int_of_string a))))
   | ["meta_load"; which; d; sched; eofwd; fa; inf] -> load_inflate_table inf; meta_load which (bytes_of_hex d) sched eofwd fa
